@@ -150,7 +150,8 @@ def make_argdiffs(jargs, tags: str):
 
 
 class Space:
-    def __init__(self, prog: Prog, key, args_list: list[tuple], n_cont: int = 2):
+    def __init__(self, prog: Prog, key, args_list: list[tuple], n_cont: int = 2, static_args: bool = False):
+        self.static_args = static_args
         self.prog = prog
         self.node = prog.node
         self.key = key
@@ -201,10 +202,34 @@ class Space:
             return dict(score=s, retval=r)
 
         with seam.seam(prog.n_cont):
-            self._sim = jax.jit(sim)
-            self._gen = jax.jit(gen)
-            self._edit = jax.jit(edit)
-            self._assess = jax.jit(assess)
+            if static_args:
+                # arguments are closed over as python constants: one jitted function per argument tuple
+                from .gfi import concrete_args
+
+                cache = {}
+
+                def _static(fn, pos):
+                    def call(*a):
+                        a = list(a)
+                        args = a[pos]
+                        k = (fn.__name__, args_key(args))
+                        if k not in cache:
+                            cargs = concrete_args(args)
+                            with seam.seam(prog.n_cont):
+                                cache[k] = jax.jit(lambda *rest: fn(*rest[:pos], cargs, *rest[pos:]))
+                        return cache[k](*a[:pos], *a[pos + 1 :])
+
+                    return call
+
+                self._sim = _static(sim, 1)
+                self._gen = _static(gen, 2)
+                self._assess = _static(assess, 1)
+                self._edit = jax.jit(edit)
+            else:
+                self._sim = jax.jit(sim)
+                self._gen = jax.jit(gen)
+                self._edit = jax.jit(edit)
+                self._assess = jax.jit(assess)
         self.n_cont = prog.n_cont
 
     # ------------------------------------------------------------------------------------
@@ -223,7 +248,7 @@ class Space:
     def initial_states(self, max_paths=512):
         out = []
         for args in self.args_list:
-            jargs = to_jax_args(args)
+            jargs = args if self.static_args else to_jax_args(args)
             fn = lambda: self._sim(self.key, jargs)
             with seam.seam(self.n_cont):
                 paths, stats = seam.explore(fn, max_paths=max_paths)
@@ -232,7 +257,7 @@ class Space:
         return out
 
     def generate(self, args, constraint: dict, max_paths=512):
-        jargs = to_jax_args(args)
+        jargs = args if self.static_args else to_jax_args(args)
         chm = make_chm(constraint)
         fn = lambda: self._gen(self.key, chm, jargs)
         with seam.seam(self.n_cont):
@@ -240,7 +265,7 @@ class Space:
         return [(self._mk_state(p.result, args, 0, [dict(op="importance", args=args_key(args), constraint={repr(k): v for k, v in constraint.items()})]), p) for p in paths]
 
     def assess(self, args, asg: dict):
-        return self._assess(make_chm(asg), to_jax_args(args))
+        return self._assess(make_chm(asg), args if self.static_args else to_jax_args(args))
 
     # ------------------------------------------------------------------------------------
     def build_request(self, spec: Spec):
